@@ -12,6 +12,7 @@ F = 'photutils/detection/peakfinder.py::find_peaks'
 
 
 def register(reg):
+    register_brightest(reg)
     img = ('arr', 2, 'real', 'nonempty')
     box = '(0, data.shape[0]), (0, data.shape[1])'
     inside = ('j >= border_width[0] and j < data.shape[0] - border_width[0] and '
@@ -54,3 +55,42 @@ def register(reg):
     variant('mask+scalar-thr', ('arr', 2, 'bool', 'nonempty'), ('const', None), 'real',
             ['mask.shape == data.shape'], ' and not mask[j, i]', '',
             ' and old_data[j, i] > threshold', mmuts)
+
+
+def register_brightest(reg):
+    """`brightest` keeps the N largest fluxes (all three star finders): the row selection is a
+    duplicate-free list of min(N, n) valid rows, sorted by decreasing flux, and no row left out
+    is brighter than a row kept.  np.argsort is specified as "a permutation listing the values in
+    non-decreasing order" (fluxes are finite here: non-finite rows were filtered before)."""
+    for rel, cls in (('photutils/detection/daofinder.py', '_DAOStarFinderCatalog'),
+                     ('photutils/detection/irafstarfinder.py', '_IRAFStarFinderCatalog'),
+                     ('photutils/detection/starfinder.py', '_StarFinderCatalog')):
+        reg.record(cls + 'Rows', {'flux': ('seq', 'real'), 'mag': ('seq', 'real'),
+                                  'brightest': 'pos'})
+        n = 'len(self.flux)'
+        reg.add(Contract(
+            target=f'{rel}::{cls}.select_brightest', props=['C14'], kind='method', stmt='idx',
+            stmt_like='np.argsort(self.flux)[::-1][:self.brightest]',
+            params={'self': cls + 'Rows'},
+            requires=[f'len(self.mag) == {n}'],
+            ensures=[
+                ('keeps-min-N-n-rows',
+                 f'len(value) == ite(self.brightest < {n}, self.brightest, {n})'),
+                ('valid-distinct-rows',
+                 f'forall(lambda k: value[k] >= 0 and value[k] < {n}, (0, len(value))) and '
+                 'forall(lambda k, m: implies(k != m, value[k] != value[m]), (0, len(value)), '
+                 '(0, len(value)))'),
+                ('sorted-by-decreasing-flux',
+                 'forall(lambda k, m: implies(k < m, self.flux[value[k]] >= self.flux[value[m]]), '
+                 '(0, len(value)), (0, len(value)))'),
+                ('no-dropped-row-is-brighter-than-a-kept-row',
+                 f'forall(lambda j, k: implies(forall(lambda m: value[m] != j, (0, len(value))), '
+                 f'self.flux[j] <= self.flux[value[k]]), (0, {n}), (0, len(value)))'),
+            ],
+            mutants=[('np.argsort(self.flux)[::-1][:self.brightest]',
+                      'np.argsort(self.flux)[:self.brightest]'),
+                     ('np.argsort(self.flux)[::-1][:self.brightest]',
+                      'np.argsort(self.mag)[:self.brightest]'),
+                     ('np.argsort(self.flux)[::-1][:self.brightest]',
+                      'np.argsort(self.flux)[::-1][:self.brightest - 1]')],
+        ))
